@@ -185,3 +185,22 @@ CASES += [
     {"name": "dephasing type misspelt in the conversion (the repaired defect)", "kind": "mutant", "rule": "C02-N", "edits": [
         ("quantarhei/qm/liouvillespace/puredephasing.py", "            elif dtype == \"Gaussian\" and self.dtype == \"Lorentzian\":", "            elif dtype == \"Gaussian\" and self.dtype == \"Lorenzian\":", 1)]},
 ]
+
+_DME = "quantarhei/qm/propagators/dmevolution.py"
+_RWA_OLD = ("            for i, t in enumerate(self.TimeAxis.data):\n                # evolution operator\n"
+            "                Ut = numpy.diag(numpy.exp(-sgn*1j*HOmega*t))\n")
+CASES += [
+    {"name": "frame left at times counted from the start of the axis (seeded changes of rounds 5 and 6)", "kind": "mutant", "rule": "C02-M", "edits": [
+        (_DME, _RWA_OLD, "            for i in range(self.TimeAxis.length):\n                t = i*self.TimeAxis.step\n                # evolution operator\n"
+                         "                Ut = numpy.diag(numpy.exp(-sgn*1j*HOmega*t))\n", 1)]},
+]
+
+_SVE = "quantarhei/qm/propagators/statevectorevolution.py"
+_RHOI = ("        rhoi = DensityMatrix(dim=self.dim)\n        for ii in range(self.dim):\n            for jj in range(self.dim):\n"
+         "                rhoi.data[ii,jj] = self.data[0,ii]* \\\n                                   numpy.conj(self.data[0,jj])\n")
+CASES += [
+    {"name": "first density matrix taken from the caller's state vector (seeded change of round 6)", "kind": "mutant", "rule": "C02-O", "edits": [
+        (_SVE, _RHOI, "        rhoi = self.psi_i.get_DensityMatrix()\n", 1)]},
+    {"name": "first density matrix as an outer product of the stored row", "kind": "twin", "edits": [
+        (_SVE, _RHOI, "        rhoi = DensityMatrix(data=numpy.outer(self.data[0,:], numpy.conj(self.data[0,:])))\n", 1)]},
+]
